@@ -47,7 +47,7 @@ theorem C09_budget (src : Bytes) (n block : Nat) (script : List Nat) (ops : List
 /-- **no CRLF inside a line.** -/
 theorem C09_no_interior_crlf (s : St) (size : Nat) :
     ∀ pre suf, (readline s size).1 = pre ++ CR :: LF :: suf → suf = [] :=
-  giveBack_onlyFinal _ (readlineLoop_onlyFinal _ [] s noCRLF_nil)
+  giveBack_onlyFinal _ _ (readlineLoop_onlyFinal _ [] s noCRLF_nil)
 
 /-- **cut reason.** A line that does not end in CRLF reached the caller's size limit
     (or everything that was left), or the input is exhausted, or it was cut one byte early
@@ -58,7 +58,7 @@ theorem C09_cut_reason (s : St) (size : Nat) :
     ∨ min size (s.buf.length + s.todo) ≤ (readline s size).1.length
     ∨ (readline s size).2.pending = []
     ∨ ((readline s size).2.buf.head? = some CR ∧
-        (min size (s.buf.length + s.todo) ≤ (readline s size).1.length + 1 ∨ (readline s size).2.pending = [CR])) :=
+        min size (s.buf.length + s.todo) ≤ (readline s size).1.length + 1) :=
   readline_cut s size
 
 /-- a result is never longer than asked -/
@@ -66,7 +66,7 @@ theorem C09_length (s : St) (size : Nat) :
     (readline s size).1.length ≤ size ∧ (read s size).1.length ≤ size := by
   constructor
   · have := readlineLoop_length (min size (s.buf.length + s.todo)) [] s (by simp)
-    have := giveBack_length (readlineLoop (min size (s.buf.length + s.todo)) [] s)
+    have := giveBack_length (min size (s.buf.length + s.todo)) (readlineLoop (min size (s.buf.length + s.todo)) [] s)
     unfold readline; omega
   · unfold Reader.read
     simp only
@@ -102,8 +102,7 @@ def C09_full : Prop :=
       ∨ min size (s.buf.length + s.todo) ≤ (readline s size).1.length
       ∨ (readline s size).2.pending = []
       ∨ ((readline s size).2.buf.head? = some CR ∧
-          (min size (s.buf.length + s.todo) ≤ (readline s size).1.length + 1
-            ∨ (readline s size).2.pending = [CR]))) ∧
+          min size (s.buf.length + s.todo) ≤ (readline s size).1.length + 1)) ∧
   (∀ s size, (Reader.read s size).2.log.length ≤ s.log.length + 1 ∧
       (readline s size).2.log.length ≤ s.log.length + size)
 
